@@ -45,10 +45,10 @@ let big_dump n m degs is_edge nbrs rows nbs =
       Printf.sprintf "%d:%s" v (String.concat "." (List.map string_of_int (nbrs v)))) nbs in
   Printf.sprintf "%d/%d/%s/%s/%s" n m (ints degs) (String.concat "," rs) (String.concat "," ns)
 
-let sample n args =
+let sample kind n args =
   if n = 0 then [] else
     let rec take k = function [] -> [] | x :: t -> if k = 0 then [] else (x mod n) :: take (k - 1) t in
-    [0; n / 2; n - 1] @ take 3 args
+    if kind = 'e' || kind = 'x' then take 2 args else [0; n / 2; n - 1] @ take 3 args
 
 let all_vertices n = List.init n (fun i -> i)
 
@@ -90,12 +90,6 @@ let big_s (g : sparse) rows nbs =
     (fun v u -> some (s_is_edge g (nat_of_int v) (nat_of_int u)))
     (fun v -> List.map int_of_nat (some (s_neighbours g (nat_of_int v)))) (rows n) (nbs n)
 
-let big_a (g : agraph) rows nbs =
-  let n = int_of_nat (a_N g) in
-  big_dump n (int_of_z (a_M g)) (List.map int_of_z (a_degrees g))
-    (fun v u -> a_is_edge g (nat_of_int v) (nat_of_int u))
-    (fun v -> List.map int_of_nat (a_neighbours g (nat_of_int v))) (rows n) (nbs n)
-
 type entry = { d : dense; s : sparse; a : agraph }
 
 let parse_tok (t : string) : char * int * int list =
@@ -127,7 +121,7 @@ let () =
              let size = List.length !store in
              let gi = graw mod size in
              let e = List.nth !store gi in
-             let n = int_of_nat (a_N e.a) in
+             let n = int_of_nat (d_N e.d) in
              let vl l = if n = 0 then [] else List.map nat_of_int (dedupe (List.map (fun r -> r mod n) l)) in
              let o : op option =
                match kind, args with
@@ -142,10 +136,13 @@ let () =
              (match o with
               | None -> ()
               | Some o ->
-                if not (op_validb (a_N e.a) o) then bad := true;
+                if not (op_validb (d_N e.d) o) then bad := true;
                 let (d', dnew) = some (d_step e.d o) in
                 let (s', snew) = some (s_step e.s o) in
-                let (a', anew) = a_step e.a o in
+                (* the abstract model is run beside the two others in small mode only *)
+                let (a', anew) = if large then (e.a, (match dnew with None -> None | Some _ -> Some e.a))
+                  else a_step e.a o in
+                let tabulate a = if large then a else tabulate a in
                 let e' = { d = d'; s = s'; a = tabulate a' } in
                 store := List.mapi (fun j x -> if j = gi then e' else x) !store;
                 (match dnew, snew, anew with
@@ -158,26 +155,23 @@ let () =
                       touched := [gi; p])
                  | _ -> failwith "models disagree on whether a graph is returned"));
              if k > 0 then Buffer.add_char buf ' ';
-             let rows n = sample n args in
-             let nbs n = if kind = 'e' || kind = 'x' then sample n args else all_vertices n in
+             let rows n = sample kind n args in
+             let nbs n = if kind = 'e' || kind = 'x' then sample kind n args else all_vertices n in
              let pre j x = if large then Printf.sprintf "%d=%s" j x else x in
              let sel = if large then !touched else List.init (List.length !store) (fun j -> j) in
              let ds = List.map (fun j -> let e = List.nth !store j in
                                  pre j (if large then big_d e.d rows nbs else dump_d e.d)) sel in
              let ss = List.map (fun j -> let e = List.nth !store j in
                                  pre j (if large then big_s e.s rows nbs else dump_s e.s)) sel in
-             let aa = List.map (fun j -> let e = List.nth !store j in
-                                 pre j (if large then big_a e.a rows nbs else dump_a e.a)) sel in
+             let aa = if large then ds else
+                 List.map (fun j -> let e = List.nth !store j in pre j (dump_a e.a)) sel in
              Buffer.add_string buf ("D:" ^ String.concat ";" ds ^ "|S:" ^ String.concat ";" ss);
              if aa <> ds || aa <> ss then Buffer.add_string buf "|MODELS-DIFFER-FROM-ABSTRACT:" ;
              if aa <> ds || aa <> ss then Buffer.add_string buf (String.concat ";" aa)) toks;
          if large then begin
            let ds = List.map (fun e -> big_d e.d all_vertices all_vertices) !store in
            let ss = List.map (fun e -> big_s e.s all_vertices all_vertices) !store in
-           let aa = List.map (fun e -> big_a e.a all_vertices all_vertices) !store in
-           Buffer.add_string buf (" F:" ^ String.concat ";" ds ^ "|" ^ String.concat ";" ss);
-           if aa <> ds || aa <> ss then
-             Buffer.add_string buf ("|MODELS-DIFFER-FROM-ABSTRACT:" ^ String.concat ";" aa)
+           Buffer.add_string buf (" F:" ^ String.concat ";" ds ^ "|" ^ String.concat ";" ss)
          end;
          if !bad then Buffer.add_string buf " INVALID-OP";
          let strict = String.concat ";" (List.map (fun e ->
